@@ -237,7 +237,9 @@ def line_search(
     if above_iter == 0 and not is_boxed:
         steplength_0 = min(1.0 / np.sqrt(d.dot(d)), max_steplength)
     else:
-        steplength_0 = 1.0
+        # never start beyond the largest feasible step (by rounding, it can be an
+        # ulp below 1, and dcsrch refuses a start with stp > stpmax)
+        steplength_0 = min(1.0, max_steplength)
 
     # Support for python 3.7 and 3.8: the minpack2 wrapper has been removed from
     # scipy from version 1.12 and replaced with a python implementation.
